@@ -115,13 +115,46 @@ theorem tLoad_store_other {t : List Entry} {a a' : Nat} {id id' : Int} {i : Nat}
   unfold tLoad tStore
   rw [List.find?_cons, hne, find_delete_other h]
 
+/-! ### the per-proxy counters -/
+
+theorem qGet_qAdd {l : List Int} {p' p : Nat} {d : Int} (h : p' < l.length) :
+    qGet (qAdd l p' d) p = qGet l p + (if p' = p then d else 0) := by
+  unfold qAdd qGet
+  rw [List.getElem?_set]
+  by_cases hp : p' = p
+  · subst hp; simp [h]
+  · simp [hp]
+
+theorem qAdd_length (l : List Int) (p : Nat) (d : Int) : (qAdd l p d).length = l.length := by
+  simp [qAdd]
+
+theorem qGet_qPad (l : List Int) (k p : Nat) : qGet (qPad l k) p = qGet l p := by
+  unfold qGet qPad
+  by_cases hp : p < l.length
+  · rw [List.getElem?_append_left hp]
+  · rw [List.getElem?_append_right (by omega)]
+    have h1 : l[p]? = none := by simp; omega
+    rw [h1]
+    by_cases hq : p - l.length < k + 1 - l.length
+    · simp [hq]
+    · have : (List.replicate (k + 1 - l.length) (0 : Int))[p - l.length]? = none := by simp; omega
+      rw [this]
+
+theorem qPad_length_gt (l : List Int) (k : Nat) : k < (qPad l k).length := by
+  simp [qPad]; omega
+
+theorem qPad_length_ge (l : List Int) (k : Nat) : l.length ≤ (qPad l k).length := by
+  simp [qPad]
+
 /-! ### what one step of a caller goroutine does -/
 
 structure Summary (s : State) (i : Nat) (c : Call) (s' : State) (c' : Call) : Prop where
   calls : s'.calls = s.calls.set i c'
   emitted : s'.emitted = s.emitted
   par : c'.par = c.par
-  ql : s'.queueLen = s.queueLen - qd c.pc + qd c'.pc
+  ql : c.par.proxy < s.queueLens.length → ∀ p : Nat,
+         qGet s'.queueLens p = qGet s.queueLens p + (if c.par.proxy = p then qd c'.pc - qd c.pc else 0)
+  qlen : s'.queueLens.length = s.queueLens.length
   inv : s'.invokeNum = s.invokeNum - nd c.pc + nd c'.pc
   table : (c.pc = .store ∧ c'.pc = .lock ∧ s'.table = tStore s.table c.adp c.id i) ∨
           (∃ o, c.pc = .del o ∧ c'.pc = .post o ∧ s'.table = tDelete s.table c.adp c.id) ∨
@@ -149,24 +182,25 @@ theorem callStep_summary {cfg : Cfg} {s s' : State} {i : Nat} {c : Call} {a : Ca
     rename_i hpc
     split at h
     · injection h with h; subst h
-      refine ⟨_, ⟨rfl, rfl, rfl, ?_, ?_, ?_, ?_, ?_, ?_, ?_, ?_, ?_, ?_⟩, rfl⟩ <;>
+      refine ⟨_, ⟨rfl, rfl, rfl, ?_, ?_, ?_, ?_, ?_, ?_, ?_, ?_, ?_, ?_, ?_⟩, rfl⟩ <;>
         simp_all [State.setCall, qd, nd, Pc.inQueue, Pc.inInvoke, Pc.registered, Pc.hasId, Pc.stored, Pc.outcome?, Pc.needsAdp]
     · injection h with h; subst h
-      refine ⟨c, ⟨(set_self hc).symm, rfl, rfl, ?_, ?_, ?_, ?_, ?_, ?_, ?_, ?_, ?_, ?_⟩, rfl⟩ <;>
+      refine ⟨c, ⟨(set_self hc).symm, rfl, rfl, ?_, ?_, ?_, ?_, ?_, ?_, ?_, ?_, ?_, ?_, ?_⟩, rfl⟩ <;>
         simp_all [qd, nd, Pc.inQueue, Pc.inInvoke, Pc.registered, Pc.hasId, Pc.stored, Pc.outcome?, Pc.needsAdp]
   all_goals (
     repeat' (split at h)
     all_goals (try contradiction)
     all_goals (
       injection h with h; subst h
-      refine ⟨_, ⟨rfl, rfl, rfl, ?_, ?_, ?_, ?_, ?_, ?_, ?_, ?_, ?_, ?_⟩, rfl⟩ <;>
+      refine ⟨_, ⟨rfl, rfl, rfl, ?_, ?_, ?_, ?_, ?_, ?_, ?_, ?_, ?_, ?_, ?_⟩, rfl⟩ <;>
         simp_all [State.setCall, State.setConn, qd, nd, Pc.inQueue, Pc.inInvoke, Pc.registered, Pc.hasId,
-          Pc.stored, Pc.outcome?, Pc.needsAdp, Consts.callQueueLenInc, Consts.callInvokeNumInc]))
+          Pc.stored, Pc.outcome?, Pc.needsAdp, Consts.callQueueLenInc, Consts.callInvokeNumInc, qGet_qAdd, qAdd_length]))
 
 /-! ### the invariant -/
 
 structure Inv (s : State) : Prop where
-  ql : s.queueLen = (s.calls.countP (fun c => c.pc.inQueue) : Nat)
+  ql : ∀ p : Nat, qGet s.queueLens p = (s.calls.countP (fun c => c.pc.inQueue && c.par.proxy == p) : Nat)
+  qpx : ∀ (i : Nat) (c : Call), s.calls[i]? = some c → c.par.proxy < s.queueLens.length
   inv : s.invokeNum = (s.calls.countP (fun c => c.pc.inInvoke) : Nat)
   tbl : ∀ e ∈ s.table, ∃ c, s.calls[e.call]? = some c ∧ c.id = e.id ∧ c.adp = e.adp ∧ c.pc.registered = true
   off : ∀ (r : Nat) (x : Rcv) (i : Nat), s.rcvs[r]? = some x → x.pc = .offer i →
@@ -184,7 +218,7 @@ structure Inv (s : State) : Prop where
   adpv : ∀ (i : Nat) (c : Call), s.calls[i]? = some c → c.pc.needsAdp = true → c.adp < s.conns.length
 
 theorem inv_init (cfg : Cfg) (ctr : Int) : Inv (init cfg ctr) := by
-  constructor <;> simp [init]
+  constructor <;> simp [init, qGet]
 
 /-- the issued log only grows at its recent end -/
 theorem issued_mono {s s' : State} {i : Nat} {c c' : Call} (hs : Summary s i c s' c') {k : Nat} {v : Int}
@@ -217,9 +251,20 @@ theorem inv_of_summary {s s' : State} {i : Nat} {c c' : Call} (hI : Inv s) (hc :
     exact ⟨hs.stored h, (hs.ident (Pc.hasId_of_stored h)).2.1, hs.adp (Pc.ne_select_of_hasId_post h)⟩
   constructor
   · -- ql
-    rw [hs.ql, hs.calls, hI.ql]
-    have := countP_set_int (fun c : Call => c.pc.inQueue) (c' := c') hc
-    simp only [qd]; rw [this]
+    intro p
+    rw [hs.ql (hI.qpx i c hc) p, hs.calls, hI.ql p]
+    have := countP_set_int (fun c : Call => c.pc.inQueue && c.par.proxy == p) (c' := c') hc
+    rw [this, hs.par]
+    by_cases hp : c.par.proxy = p
+    · simp [hp, qd]; omega
+    · simp [hp]
+  · -- qpx
+    intro j cj hj
+    rw [hs.qlen]
+    by_cases hji : j = i
+    · rw [hji, hself] at hj; injection hj with hj; subst hj
+      rw [hs.par]; exact hI.qpx i c hc
+    · rw [hsame _ hji] at hj; exact hI.qpx j cj hj
   · rw [hs.inv, hs.calls, hI.inv]
     have := countP_set_int (fun c : Call => c.pc.inInvoke) (c' := c') hc
     simp only [nd]; rw [this]
@@ -394,7 +439,7 @@ theorem inv_of_summary {s s' : State} {i : Nat} {c c' : Call} (hI : Inv s) (hc :
 
 /-- steps that leave calls, table, counters and the id counter alone -/
 theorem inv_of_frame {s s' : State} (hI : Inv s) (hg : s'.gen = s.gen) (hc : s'.calls = s.calls)
-    (ht : s'.table = s.table) (hq : s'.queueLen = s.queueLen) (hn : s'.invokeNum = s.invokeNum)
+    (ht : s'.table = s.table) (hq : s'.queueLens = s.queueLens) (hn : s'.invokeNum = s.invokeNum)
     (he : ∀ x, x ∈ s.emitted → x ∈ s'.emitted) (hl : s'.conns.length = s.conns.length)
     (hr : ∀ (r : Nat) (x : Rcv), s'.rcvs[r]? = some x → (x.adp, x.pkt) ∈ s'.emitted ∧
       ∀ j, x.pc = RPc.offer j →
@@ -402,6 +447,7 @@ theorem inv_of_frame {s s' : State} (hI : Inv s) (hg : s'.gen = s.gen) (hc : s'.
           x.pkt.id ≠ 0 ∧ x.pkt.oneway = false)) : Inv s' := by
   constructor
   · rw [hq, hc]; exact hI.ql
+  · rw [hq, hc]; exact hI.qpx
   · rw [hn, hc]; exact hI.inv
   · rw [ht, hc]; exact hI.tbl
   · intro r x j hx hpc; rw [hc]; exact (hr r x hx).2 j hpc
@@ -464,7 +510,13 @@ theorem inv_step {cfg : Cfg} {s s' : State} {a : Action} (hI : Inv s) (h : step 
     have hold : ∀ (j : Nat) (x : Call), s.calls[j]? = some x → (s.calls ++ [⟨par, .idle, 0, 0, 0⟩])[j]? = some x := by
       intro j x hx; rw [List.getElem?_append_left (lt_of_getElem? hx)]; exact hx
     constructor
-    · simp only [List.countP_append]; simp [Pc.inQueue]; exact hI.ql
+    · intro p
+      rw [qGet_qPad]
+      simp only [List.countP_append]; simp [Pc.inQueue]; exact hI.ql p
+    · intro j x hx
+      rcases getElem?_append_one_cases hx with ⟨_, rfl⟩ | ⟨_, h⟩
+      · exact qPad_length_gt _ _
+      · exact Nat.lt_of_lt_of_le (hI.qpx j x h) (qPad_length_ge _ _)
     · simp only [List.countP_append]; simp [Pc.inInvoke]; exact hI.inv
     · intro e he
       obtain ⟨c, h0, h1⟩ := hI.tbl e he
@@ -554,7 +606,7 @@ theorem inv_step {cfg : Cfg} {s s' : State} {a : Action} (hI : Inv s) (h : step 
             rw [hc] at h0; injection h0 with h0; subst h0
             have hs : Summary s i c ((s.setCall i { c with pc := .decQ (.reply x.pkt) }).setRcv r { x with pc := .delivered })
                 { c with pc := .decQ (.reply x.pkt) } := by
-              refine ⟨rfl, rfl, rfl, ?_, ?_, ?_, ?_, ?_, ?_, ?_, ?_, ?_, ?_⟩ <;>
+              refine ⟨rfl, rfl, rfl, ?_, ?_, ?_, ?_, ?_, ?_, ?_, ?_, ?_, ?_, ?_⟩ <;>
                 simp_all [State.setCall, State.setRcv, qd, nd, Pc.inQueue, Pc.inInvoke, Pc.registered, Pc.hasId,
                   Pc.stored, Pc.outcome?, Pc.needsAdp]
               have := hI.emi r x hx
